@@ -154,6 +154,15 @@ def run(ctx):
         tag = "_c17s%di%d" % (ctx.seed, i)
         try:
             card = cards.CardGen(rng, tag, nbody=3, n_chains=(2, 3), res_per_slot=(1, 2), final_j2=(0, 0, 1, 2), models=("default", "BW"), decay_opts_prob=0.1).make()
+            tied_card = i % 2 == 0
+            if tied_card:
+                # two couplings known under two names each (var_equal): a complete parameter set then lists both names of a shared value
+                with quiet():
+                    free_p = [k_ for k_ in cards.load(card).get_amplitude().vm.trainable_vars if k_.endswith("r")]
+                if len(free_p) >= 2:
+                    card["config"].setdefault("constrains", {})["var_equal"] = [[free_p[0], free_p[-1]]]
+                else:
+                    tied_card = False
             traced = i % 4 == 3  # every fourth card evaluates through a traced tf.function (use_tf_function: True)
             with quiet():
                 cfg = cards.load(card, extra_data={"use_tf_function": True} if traced else None)
@@ -163,6 +172,7 @@ def run(ctx):
             ctx.count("card_failed")
             continue
         ctx.covered("evaluation", "traced" if traced else "eager")
+        ctx.covered("tied_parameters", tied_card)
         dg = amp.decay_group
         nch = len(dg.chains)
         ps = cards.events(card, 24, rng, classes=False)
@@ -338,6 +348,9 @@ def run(ctx):
             "fit_fractions(new)": op_ff_new, "FitFractions object reused": op_ff_obj_reused, "FitFractions object inside temp_used_res": op_ff_obj_in_block, "cal_fitfractions": op_cal_ff, "factor_iteration": op_factor_iter, "build_amp_matrix": op_amp_matrix,
             "build_angle_amp_matrix": op_angle_amp_matrix, "build_int_matrix": op_int_matrix,
             "temp_params": cm(lambda: amp.temp_params(some)),
+            # a complete parameter set (as read from get_params() or a result file: every name, both names of a tie) as the override
+            "temp_params(all names)": cm(lambda: amp.temp_params({k_: float(v_) + 0.173 for k_, v_ in amp.get_params().items()})),
+            "vm.temp_params(all names)": cm(lambda: amp.vm.temp_params({k_: float(v_) + 0.173 for k_, v_ in amp.get_params().items()})),
             # positional override (what a minimiser's x or vm.get_all_val() is): values of all trainable variables in order
             "temp_params(positional)": cm(lambda: amp.temp_params([float(v_) + 0.37 for v_ in amp.vm.get_all_val()])),
             "mask_params": cm(lambda: amp.mask_params({pnames[0]: 0.5})),
@@ -351,7 +364,8 @@ def run(ctx):
         if ctx.tier == "quick":
             op_names = [op_names[(i + j * 5) % len(op_names)] for j in range(5)]  # stride 5: the expensive fit-fraction operations are spread over the cards
             # the operations whose outcome depends on the card class are always run on that class
-            extra_ops = (["FitFractions object reused", "FitFractions object inside temp_used_res"] if i % 8 == 0 else []) + \
+            extra_ops = (["temp_params(all names)", "vm.temp_params(all names)"] if tied_card else []) + \
+                (["FitFractions object reused", "FitFractions object inside temp_used_res"] if i % 8 == 0 else []) + \
                 (["temp_used_res(all resonances)", "factor_iteration", "temp_used_res"] if traced else []) + \
                 (["vm.temp_params", "temp_params", "nested(mask_params>temp_params)"] if bounded else [])
             op_names += [o for o in extra_ops if o not in op_names]
